@@ -89,7 +89,7 @@ func idx(id string) int {
 	panic("c11 pool: no schema spec " + id)
 }
 
-func ty(name, id string) TypeRef  { return TypeRef{Name: name, Kind: KSchema, Spec: idx(id)} }
+func ty(name, id string) TypeRef    { return TypeRef{Name: name, Kind: KSchema, Spec: idx(id)} }
 func rx(name string, i int) TypeRef { return TypeRef{Name: name, Kind: KRegex, Spec: i} }
 
 func init() {
